@@ -137,12 +137,13 @@ func randSession(r *hlib.Rand) (size int, uses []fileUse) {
 				a = e - int64(r.Range(1, int(l)-1))
 			}
 		}
-		switch r.Intn(8) {
-		case 0:
+		switch r.Intn(40) {
+		case 0, 1, 2, 3, 4:
 			l = int64(r.Range(1, 6) * u.p.lb)
-		case 1:
-			l = copyBuf + int64(r.Range(-50, 50)) // crosses a copy-buffer boundary
-			u.p.lb = []int{16, 32, 64}[r.Intn(3)]
+		case 5, 6, 7:
+			l = copyBuf + int64(r.Range(-50, 50)) // crosses a copy-buffer boundary (costly for the driver: rare)
+			u.p.lb = 64
+			u.p.db = 0
 		}
 		b := a + l
 		if b > int64(size) {
